@@ -419,6 +419,58 @@ func (i *inst) probes(r interface{ Intn(int) int }) {
 				rep.Violate(hx.Violation{Kind: "impl-violation", Signature: "C14:Read-bounds", What: fmt.Sprintf("Read(%d,%d) ok=%v with size %d (model %v)", off, n, ok, lenB, wantM), Input: i.input()})
 			}
 		}
+		// host writes of every form: ok iff off+n <= len, for n = 0 as well; a refused write changes nothing
+		for _, n := range []uint32{0, 1, 2, 5} {
+			want := o64+uint64(n) <= lenB
+			wantM := orc.Askf("c14 hassize %d %d %d", i.id, off, n) == "1"
+			buf := make([]byte, n)
+			for k := range buf {
+				buf[k] = v
+			}
+			var okW, okS bool
+			pan := try(func() { okW = i.mem.Write(off, buf) })
+			pan2 := try(func() { okS = i.mem.WriteString(off, string(buf)) })
+			if pan != "" || pan2 != "" {
+				rep.Violate(hx.Violation{Kind: "impl-violation", Signature: "C14:Write-panics", What: fmt.Sprintf("Write/WriteString(%d, %d bytes) with size %d panics: %s%s", off, n, lenB, pan, pan2), Input: i.input()})
+				continue
+			}
+			if okW != want || okS != want || okW != wantM {
+				rep.Violate(hx.Violation{Kind: "impl-violation", Signature: "C14:Write-bounds", What: fmt.Sprintf("Write(%d, %d bytes) ok=%v WriteString ok=%v with size %d; the property requires %v (model %v)", off, n, okW, okS, lenB, want, wantM), Input: i.input()})
+			}
+			if okW {
+				for k := uint32(0); k < n; k++ {
+					i.spec[off+k] = v
+					orc.Askf("c14 wb %d %d %d", i.id, off+k, v)
+				}
+			}
+		}
+		for _, n := range []uint64{2, 4, 8} {
+			want := o64+n <= lenB
+			var ok bool
+			pan := try(func() {
+				switch n {
+				case 2:
+					ok = i.mem.WriteUint16Le(off, uint16(v)|uint16(v)<<8)
+				case 4:
+					ok = i.mem.WriteUint32Le(off, uint32(v)*0x01010101)
+				case 8:
+					ok = i.mem.WriteUint64Le(off, uint64(v)*0x0101010101010101)
+				}
+			})
+			if pan != "" {
+				rep.Violate(hx.Violation{Kind: "impl-violation", Signature: "C14:Write-panics", What: fmt.Sprintf("WriteUint%dLe(%d) with size %d panics: %s", n*8, off, lenB, pan), Input: i.input()})
+				continue
+			}
+			if ok != want {
+				rep.Violate(hx.Violation{Kind: "impl-violation", Signature: "C14:Write-bounds", What: fmt.Sprintf("WriteUint%dLe(%d) ok=%v with size %d", n*8, off, ok, lenB), Input: i.input()})
+			}
+			if ok {
+				for k := uint32(0); k < uint32(n); k++ {
+					i.spec[off+k] = v
+					orc.Askf("c14 wb %d %d %d", i.id, off+k, v)
+				}
+			}
+		}
 		// guest access: in bounds -> value; out of bounds -> out-of-bounds trap
 		res, err := i.call("load8", uint64(off))
 		if inb {
